@@ -188,7 +188,8 @@ def _loops(reg, na):
                              num_expr(v["partial_weight"]) == pw, *upper)
             return z3.And(k >= 0, acc, fr, z3.Or(need_refresh, running))
         spec = RangeInvariant("%s._loops.mesh_loop.%s" % (PROP, tag), inv,
-                              lambda it_, frame: [parameters.buf, frame.vars["total"].buf], function=fn)
+                              lambda it_, frame: [parameters.buf, frame.vars["total"].buf], function=fn,
+                              replay=lambda mdl=None: replay_loops())
         # lemma instances at the loop variable: patched in below through a wrapper on reg.prove
         it.loop_specs[(MOD + "._loops", 0)] = _with_lemmas(spec, lemma_inst)
         f = it.get_func(MOD, "_loops")
@@ -205,7 +206,7 @@ def _loops(reg, na):
                       ("weight", out.at(nq) == SUM["w"](N)), ("form", out.at(nq + 1) == SUM["form"](N)),
                       ("shell", out.at(nq + 2) == SUM["shell"](N)), ("radius", out.at(nq + 3) == SUM["radius"](N))):
             reg.prove("%s._loops.post.result_layout_and_sums.%s.%s" % (PROP, tag, nm), pc + lem, g,
-                      function=fn, timeout_ms=60000)
+                      function=fn, timeout_ms=60000, replay=lambda mdl=None: replay_loops())
     it = Interp(reg)
     ABSTRACT["mul"] = True
     try:
@@ -362,3 +363,73 @@ def _validation(reg):
         reg.passed(oid, function=fn, kind="bounded", backend="run-time contract",
                    seconds=time.time() - t0, bound="%d enumerated tables (1-2 shape parameters, every subset, order, "
                                                    "position and mistyping of theta/phi/psi)" % ncases)
+
+
+
+def replay_loops():
+    """Real kernelpy._loops on meshes that cross a validity boundary (form returns NaN when thickness >= radius),
+    with a cutoff, for one and two dispersed parameters, against the defining sum."""
+    import itertools
+    import numpy as np
+    from sasmodels import kernelpy
+
+    class Details(object):
+        pass
+    bad, out = False, []
+    nq = 3
+    q = np.array([0.01, 0.1, 0.3])
+    cases = [
+        # (parameter centre values, [(slot, values, weights)], cutoff)
+        ([50.0, 5.0, 2.0], [(1, np.array([60.0, 20.0, 45.0, 10.0]), np.array([0.1, 0.4, 0.3, 0.2]))], 0.0),
+        ([50.0, 5.0, 2.0], [(0, np.array([2.0, 30.0, 50.0]), np.array([0.2, 0.5, 0.3])),
+                            (1, np.array([40.0, 1.0, 25.0, 3.0]), np.array([0.25, 0.25, 0.3, 0.2]))], 0.07),
+    ]
+    for centre, disp, cutoff in cases:
+        npars = len(centre)
+        pd_val = np.hstack([v for _, v, _ in disp])
+        pd_wt = np.hstack([w for _, _, w in disp])
+        values = np.hstack(([1.0, 0.0], centre, pd_val, pd_wt))
+        d = Details()
+        d.num_active = len(disp)
+        d.num_weights = len(pd_val)
+        d.pd_par = np.array([s for s, _, _ in disp] + [0] * (5 - len(disp)))
+        d.pd_length = np.array([len(v) for _, v, _ in disp] + [1] * (5 - len(disp)))
+        d.pd_offset = np.array(list(np.cumsum([0] + [len(v) for _, v, _ in disp])[:-1]) + [0] * (5 - len(disp)))
+        d.pd_stride = np.array(list(np.cumprod([1] + [len(v) for _, v, _ in disp])[:-1]) + [0] * (5 - len(disp)))
+        d.num_eval = int(np.prod([len(v) for _, v, _ in disp]))
+        parameters = np.empty(npars)
+
+        def form():
+            r, t, c = parameters
+            if t >= r:
+                return np.full(nq, np.nan)
+            return c * (r - t) * np.exp(-q * r)
+
+        def form_volume():
+            r, t, c = parameters
+            return r ** 3, r ** 3 - (r - t) ** 3
+
+        def form_radius():
+            return parameters[0] + 0.5 * parameters[1]
+        got = kernelpy._loops(parameters, form, form_volume, form_radius, nq, d, values, cutoff)
+        tot, wn, wf, ws, wr = np.zeros(nq), 0.0, 0.0, 0.0, 0.0
+        for idx in itertools.product(*[range(len(v)) for _, v, _ in disp]):
+            p = list(centre)
+            w = 1.0
+            for (slot, v, wt), i in zip(disp, idx):
+                p[slot] = v[i]
+                w *= wt[i]
+            r, t, c = p
+            if w > cutoff and t < r:
+                tot += w * c * (r - t) * np.exp(-q * r)
+                wn += w
+                wf += w * r ** 3
+                ws += w * (r ** 3 - (r - t) ** 3)
+                wr += w * (r + 0.5 * t)
+        want = np.hstack((tot, wn, wf, ws, wr))
+        ok = np.allclose(got, want, rtol=1e-12, atol=1e-15)
+        bad = bad or not ok
+        out.append({"dispersed_slots": [s for s, _, _ in disp], "cutoff": cutoff, "real": np.asarray(got).tolist(),
+                    "spec": want.tolist()})
+    return bool(bad), {"call": "kernelpy._loops with a form that is NaN for thickness >= radius", "real": out,
+                       "spec": "sums over the mesh points with weight > cutoff and a valid form"}
